@@ -244,6 +244,12 @@ impl<S: BitmapSlice + Send + Sync> PassthroughFs<S> {
                     return Err(io::Error::last_os_error());
                 }
 
+                // The scan walks over records the guest already has; they may be larger than the
+                // guest's reply buffer, and getdents64 fails with EINVAL when the next record does
+                // not fit.  Scan with a buffer that holds any record (NAME_MAX + header, rounded).
+                let scan_len = std::cmp::max(size as usize, 4096);
+                buf.reserve(scan_len);
+
                 let mut found = false;
                 loop {
                     // Safe because the kernel guarantees that it will only write to `buf` and we
@@ -253,7 +259,7 @@ impl<S: BitmapSlice + Send + Sync> PassthroughFs<S> {
                             libc::SYS_getdents64,
                             dir.as_raw_fd(),
                             buf.as_mut_ptr() as *mut LinuxDirent64,
-                            size as libc::c_int,
+                            scan_len as libc::c_int,
                         )
                     };
                     if res < 0 {
